@@ -130,6 +130,17 @@ def run(stmts, env, state):
     return False
 
 
+def write_if_changed(path, text):
+    """keep the time stamp when nothing changed, so that make does not rebuild the proofs"""
+    try:
+        if open(path).read() == text:
+            return
+    except OSError:
+        pass
+    with open(path, 'w') as f:
+        f.write(text)
+
+
 def main():
     try:
         hdr = strip_comments(open(os.path.join(REPO, 'include/common/global_definitions.h')).read())
@@ -150,8 +161,7 @@ def main():
                             sel = None
                         rows.append(((g, gi), (p, pi), (a, ai), (b, bi), sel))
     except (TranslateError, ValueError, IndexError) as ex:
-        with open(OUT, 'w') as f:
-            f.write('(* T11 could not translate the current source: %s *)\nT11_translation_failed.\n' % str(ex).replace('*)', '* )'))
+        write_if_changed(OUT, '(* T11 could not translate the current source: %s *)\nT11_translation_failed.\n' % str(ex).replace('*)', '* )'))
         print('T11 FAILED:', ex)
         return 1
     out = ['(* GENERATED by translate/t11_select.py from src/GMGPolar/select_test_case.cpp and include/common/global_definitions.h;',
@@ -173,8 +183,7 @@ def main():
     out.append('].')
     for v, name in (('geometry_', 'geometry'), ('problem_', 'problem'), ('alpha_', 'alpha'), ('beta_', 'beta')):
         out.append('Definition gen_enum_%s : list (string * Z) := [%s].' % (name, '; '.join('("%s", %d%%Z)' % e for e in enums[v])))
-    with open(OUT, 'w') as f:
-        f.write('\n'.join(out) + '\n')
+    write_if_changed(OUT, '\n'.join(out) + '\n')
     print('T11 ok: %s (%d combinations, %d accepted)' % (OUT, len(rows), sum(1 for r in rows if r[4] is not None)))
     return 0
 
